@@ -93,6 +93,34 @@ CHECKS = {
         design_ref="DESIGN.md 4 (C05)",
         note="Trusted as C03. Clipping off for pairs (as the property states). Float replays sampled at 1e-7.",
     ),
+    "C02": dict(
+        engine="tracing-ssm",
+        technique="TLC trace validation (TraceProbSolver.tla / GaussTerms.tla) of operation logs of the real filter code on the tracing SSM + exact KalmanExact.tla instances replayed into the real SSMs",
+        text=(
+            "TLC accepts the operation log of a run of the real solver/solver_mle/solver_dynamic x strategy_filter only if the "
+            "final filtering state carries exactly the accepted-step history: every step predicted with the unit-scale (dynamic: "
+            "the just-estimated) transition from the previous posterior, linearised at the predicted mean at the step's end time "
+            "(dynamic without re-linearisation: at the mean-only extrapolation), updated with exactly that linearisation, initial "
+            "constraint applied when configured, outputs equal to those terms. Histories: fixed grids and TLC-generated adaptive "
+            "behaviours. KalmanExact.tla adds one- and two-step instances end to end in exact rationals for all calibration modes."
+        ),
+        design_ref="DESIGN.md 3.2, 3.3, 4 (C02)",
+        note="Trusted as C03. Per-operation numerics are C08/C09/C11; precision loss at high order / tiny steps is floating point and not covered; end-to-end exact instances only for q <= 2 and <= 2 steps.",
+    ),
+    "C04": dict(
+        engine="tracing-ssm",
+        technique="TLC trace validation with exact rational check of the reported quasi-MLE / dynamic scales (TraceProbSolver.tla) + equivariance replays on the real SSMs",
+        text=(
+            "With scripted, uniquely identifiable whitened-residual RMS values the reported MLE scale must equal, as an exact "
+            "rational checked by TLC, the root mean square over the data of the accepted steps (with/without the 1/sqrt(N) "
+            "correction, including the initial-constraint datum); every returned marginal and conditional must carry the "
+            "calibration tag exactly once; dynamic scales must be the RMS of the observed unit-scale mean-only extrapolation "
+            "from the previous posterior, used by that step's transitions (also when interpolating) and reported per output; "
+            "uncalibrated runs report one. Equivariance under base scales c = 2^k is replayed on the three real SSMs."
+        ),
+        design_ref="DESIGN.md 4 (C04)",
+        note="Trusted as C03; the numerical value of a whitened residual RMS is decided under C08. Equivariance replays sampled (powers of two, 1e-7..1e-9).",
+    ),
 }
 
 NOT_APPLICABLE = {
